@@ -82,8 +82,24 @@ void vh_tr(int in, bool invoke, const char* name, const void* ptr, void* state)
   else logev(std::string(in ? "iC" : "oC") + std::to_string(sb) + ":" + std::to_string(fn_of_key(ptr)));
 }
 
+// scenario modes of the guest function (commands `cbptr` / `cbmany`): 1 = call entry point number `arg` with argument 1 and return
+// its result; 2 = call entry point number `arg` with argument 7, take the result as a POINTER into guest memory and return what it points at
+static int g_mode = 0;
 static GLong gl_node(GLong arg)
 {
+  if (g_mode != 0) {
+#ifdef CALLS_NOOP
+    if (g_mode == 1) return reinterpret_cast<GLong (*)(GLong)>(g_ep[arg])(1);
+    GLong* p = reinterpret_cast<GLong* (*)(GLong)>(g_ep[arg])(7);
+    return p ? *p : -1;
+#else
+    auto* im = SbxA::thread_data.sandbox;
+    if (g_mode == 1) return im->guest_call_fnptr<GLong, GLong>((uint32_t)g_ep[arg], 1);
+    uint32_t off = im->guest_call_fnptr<uint32_t, GLong>((uint32_t)g_ep[arg], 7);
+    if (off == 0) return -1;
+    GLong v; std::memcpy(&v, reinterpret_cast<void*>(im->Base + (off & 0xffff)), sizeof v); return v;
+#endif
+  }
   int me = g_cur_sb;
 #ifndef CALLS_NOOP
   auto* impl = SbxA::thread_data.sandbox;
@@ -156,8 +172,23 @@ template<int K> static tainted<long, SbxA> cbK(Sb& s, tainted<long, SbxA> a)
   return ret;
 }
 
+// many callbacks with one signature: each returns 1000*argument + its own number
+template<int K> static tainted<long, SbxA> cbM(Sb&, tainted<long, SbxA> a) { return a * 1000 + K; }
+constexpr int NMANY = 70;
+static CbFn g_many[NMANY];
+template<size_t... Is> static void fill_many(std::index_sequence<Is...>) { ((g_many[Is] = &cbM<(int)Is>), ...); }
+// a callback whose result is a POINTER into sandbox memory
+static long g_ptr_val;
+static tainted<long*, SbxA> cbP(Sb& s, tainted<long, SbxA>)
+{
+  auto p = s.malloc_in_sandbox<long>();
+  *p = g_ptr_val;
+  return p;
+}
+
 int main()
 {
+  fill_many(std::make_index_sequence<NMANY>());
   g_cbs[0] = &cbK<0>; g_cbs[1] = &cbK<1>; g_cbs[2] = &cbK<2>; g_cbs[3] = &cbK<3>;
 #ifdef CALLS_DYLIB
   const char* so = getenv("VH_GUEST_SO");
@@ -173,6 +204,50 @@ int main()
 #endif
   g_sb[0].set_transition_state(&g_state[0][0]); g_sb[1].set_transition_state(&g_state[1][0]);
   main_loop([&](const std::vector<std::string>& t) -> std::string {
+    if (t[0] == "cbptr" && t.size() == 3) {
+      // a callback returns a pointer to a cell it allocated in sandbox memory; the guest dereferences what it received
+      int sb = atoi(t[1].c_str()); g_ptr_val = (long)parse_dec(t[2]);
+      std::string r = guarded([&]() -> std::string {
+        auto cb = g_sb[sb].register_callback(cbP);
+        g_ep[0] = (uintptr_t)cb.UNSAFE_sandboxed(g_sb[sb]); g_mode = 2; g_cur_sb = sb;
+        struct Reset { ~Reset() { g_mode = 0; g_cur_sb = 9; } } reset;
+        auto v = g_sb[sb].INTERNAL_invoke_with_func_ptr<long(long)>("gl_node", guest_fn(sb, "gl_node", reinterpret_cast<void*>(&gl_node)), 0L);
+        return "ok " + std::to_string(v.UNSAFE_unverified());
+      });
+#ifndef CALLS_NOOP
+      SbxA::thread_data.sandbox = nullptr;
+#endif
+      return r;
+    }
+    if (t[0] == "cbmany" && t.size() == 4) {
+      // n live registrations (distinct functions, one signature), one of them released, two more made; then EVERY live
+      // entry point is called by the guest: each must still run the function it was handed out for
+      int sb = atoi(t[1].c_str()), n = atoi(t[2].c_str()), unreg = atoi(t[3].c_str());
+      if (n + 2 > NMANY || n + 2 > 16 + 60) return "badop";
+      using Owner = rlbox::sandbox_callback<long (*)(long), SbxA>;
+      static uintptr_t eps[NMANY]; std::vector<Owner> owners((size_t)n + 2);
+      std::string r = guarded([&]() -> std::string {
+        auto reg = [&](int i) { owners[(size_t)i] = g_sb[sb].register_callback(g_many[i]); eps[i] = (uintptr_t)owners[(size_t)i].UNSAFE_sandboxed(g_sb[sb]); };
+        for (int i = 0; i < n; i++) reg(i);
+        if (unreg >= 0 && unreg < n) owners[(size_t)unreg].unregister();
+        reg(n); reg(n + 1);
+        std::string out = "ok";
+        g_mode = 1; g_cur_sb = sb;
+        struct Reset { ~Reset() { g_mode = 0; g_cur_sb = 9; } } reset;
+        for (int i = 0; i < n + 2; i++) {
+          if (i == unreg) { out += " -"; continue; }
+          g_ep[0] = eps[i];
+          auto v = g_sb[sb].INTERNAL_invoke_with_func_ptr<long(long)>("gl_node", guest_fn(sb, "gl_node", reinterpret_cast<void*>(&gl_node)), 0L);
+          out += " " + std::to_string(v.UNSAFE_unverified() - 1000);
+        }
+        return out;
+      });
+      for (auto& o : owners) { try { o.unregister(); } catch (...) {} }
+#ifndef CALLS_NOOP
+      SbxA::thread_data.sandbox = nullptr;
+#endif
+      return r;
+    }
     if (t[0] != "tree" && t[0] != "treen" && t[0] != "treenh") return "badop";
     g_tok.assign(t.begin() + 1, t.end()); g_pos = 0; g_log.clear(); g_nep = 0; g_cur_sb = 9;
     using Owner = rlbox::sandbox_callback<long (*)(long), SbxA>;
